@@ -210,6 +210,33 @@ def gen_c09_circles(rnd, tier):
                     continue
             prs.append([p1[0], p1[1], p2[0], p2[1]])
         out.append({'m': 'fit', 'op': 'c3', 'p0': list(p0), 'sc': rnd.choice((0, -10, -3, 4, 10)), 'prs': prs})
+    # shallow triples: three nearly collinear lattice points (sine of the turning angle 3e-4 .. 7e-4), and exactly collinear ones
+    for _ in range(4 if tier == 'quick' else 40):
+        p0 = (rnd.randint(-8, 8), rnd.randint(-8, 8))
+        prs = []
+        for _k in range(30):
+            a, b = rnd.randint(1500, 3000), rnd.randint(-3, 3)
+            e = rnd.choice((1, -1, 0))          # 0: exactly collinear
+            if rnd.random() < 0.5:
+                prs.append([p0[0] + a, p0[1] + b, p0[0] + 2 * a, p0[1] + 2 * b + e])
+            else:
+                prs.append([p0[0] + b, p0[1] + a, p0[0] + 2 * b + e, p0[1] + 2 * a])
+        out.append({'m': 'fit', 'op': 'c3', 'p0': list(p0), 'sc': rnd.choice((0, -10, -3, 4)), 'prs': prs, 'shallow': True})
+    # a rival circle with one point less than the generating one (same radius, far away), few outliers, many orders
+    for _ in range(40 if tier == 'quick' else 600):
+        R = rnd.choice((5, 13, 25))
+        rg = ring(R)
+        N = len(rg)
+        ctr = (rnd.randint(-9, 9), rnd.randint(-9, 9))
+        c2 = (ctr[0] + rnd.choice((-1, 1)) * (3 * R + rnd.randint(0, 5)), ctr[1] + rnd.randint(-R, R))
+        pts = [[x + ctr[0], y + ctr[1]] for (x, y) in rg]
+        riv = [[x + c2[0], y + c2[1]] for (x, y) in rg]
+        riv.pop(rnd.randrange(N))
+        outl = [[ctr[0] + rnd.randint(-2 * R, 2 * R), ctr[1] + rnd.randint(-2 * R, 2 * R)] for _ in range(rnd.randint(0, N // 4))]
+        allp = pts + riv + outl
+        rnd.shuffle(allp)
+        out.append({'m': 'fit', 'op': 'ransac', 'R': R, 'ctr': list(ctr), 'pts': allp, 'sc': rnd.choice((0, -10, 4)), 'tolN': 1, 'tolD': rnd.choice((4, 8)),
+                    'iters': rnd.choice((0, 300, 500)), 'rmin': -1, 'rmax': -1, 'rival': True})
     # contaminated rings
     for _ in range(60 if tier == 'quick' else 1200):
         R = rnd.choice((5, 13, 25))
